@@ -57,6 +57,29 @@ def build(s: DScn):
         states.append(State(st.name if st.name else None, initial=st.initial, final=st.final,
                             enter=inline(st.enter), exit=inline(st.exit), **kw))
     ns = {}
+    # the class written as base + subclass overriding state k (same id, a new State object) when that leaves the base
+    # class a valid machine: every state reachable from the initial one without k's outgoing transitions, k not final,
+    # no from_.any() groups
+    k_over = getattr(s, "override", -1)
+    sub_ns = None
+    if k_over >= 0:
+        reach, todo = set(), [next(i for i, st in enumerate(s.states) if st.initial)]
+        while todo:
+            x = todo.pop()
+            if x in reach:
+                continue
+            reach.add(x)
+            todo += [t.tgt for t in s.trans if t.src == x and x != k_over]
+        ok = (len(reach) == len(s.states) and not s.states[k_over].final and not getattr(s, "states_dict", False)
+              and not any(getattr(t, "any_group", 0) for t in s.trans) and any(t.src == k_over for t in s.trans))
+        if ok:
+            st = s.states[k_over]
+            kw = {"value": pyvalue(st.value)} if st.value is not None else {}
+            new_k = State(st.name if st.name else None, initial=st.initial, final=st.final,
+                          enter=inline(st.enter), exit=inline(st.exit), **kw)
+            sub_ns = {st.id: new_k}
+        else:
+            k_over = -1
     if getattr(s, "states_dict", False):
         from statemachine.states import States
         ns["states_"] = States({st.id: obj for st, obj in zip(s.states, states)})
@@ -64,6 +87,7 @@ def build(s: DScn):
         for st, obj in zip(s.states, states):
             ns[st.id] = obj
     by_attr = {}
+    by_attr_sub = {}
     any_done = set()
     # events given as id-less Event objects: only names that are valid attribute names, are not the attribute a
     # transition list is assigned to, and do not clash with a state id or a method
@@ -74,7 +98,7 @@ def build(s: DScn):
         for t in s.trans:
             # (one event per such transition, and no attribute assignment: the library re-binds placeholders one by one
             # — remove, append — so the order of *several* events of a transition is not the written one; 11.5)
-            if len(t.events) == 1 and not t.attr and not getattr(t, "any_group", 0):
+            if len(t.events) == 1 and not t.attr and not getattr(t, "any_group", 0) and t.src != k_over:
                 n = t.events[0]
                 if n.isidentifier() and n.isascii() and n not in taken and n not in ph:
                     ph[n] = Event(name="Shown as " + n)
@@ -84,7 +108,7 @@ def build(s: DScn):
                 continue
             any_done.add(t.any_group)
         kw = {}
-        if len(t.events) == 1 and t.events[0] in ph and not t.attr and not getattr(t, "any_group", 0):
+        if len(t.events) == 1 and t.events[0] in ph and not t.attr and not getattr(t, "any_group", 0) and t.src != k_over:
             kw["event"] = [ph[t.events[0]]] if t.event_as_list else ph[t.events[0]]
         elif t.events:
             kw["event"] = list(t.events) if t.event_as_list else " ".join(t.events)
@@ -99,6 +123,11 @@ def build(s: DScn):
             kw["on"] = v
         if getattr(t, "any_group", 0):
             tl = states[t.tgt].from_.any(**kw)
+        elif sub_ns is not None and t.src == k_over:
+            tl = new_k.to(new_k if t.tgt == k_over else states[t.tgt], **kw)
+            if t.attr:
+                by_attr_sub[t.attr] = (by_attr_sub[t.attr] | tl) if t.attr in by_attr_sub else tl
+            continue
         else:
             tl = states[t.src].to(states[t.tgt], **kw)
         if t.attr:
@@ -106,7 +135,8 @@ def build(s: DScn):
     for a, tl in by_attr.items():
         ns[a] = tl
     used = {t.events[0] for t in s.trans
-            if len(t.events) == 1 and t.events[0] in ph and not t.attr and not getattr(t, "any_group", 0)}
+            if len(t.events) == 1 and t.events[0] in ph and not t.attr and not getattr(t, "any_group", 0)
+            and t.src != k_over}
     for n in sorted(used):
         ns[n] = ph[n]
     if getattr(s, "coro", False):
@@ -120,6 +150,9 @@ def build(s: DScn):
     with warnings.catch_warnings():
         warnings.simplefilter("ignore")
         cls = type(StateMachine)("M_" + re.sub(r"\W", "_", s.name), (StateMachine,), ns)
+        if sub_ns is not None:
+            sub_ns.update(by_attr_sub)
+            cls = type(StateMachine)("Over_" + cls.__name__, (cls,), sub_ns)
         if s.subclass:
             cls = type(StateMachine)("Sub_" + cls.__name__, (cls,), {})
     model_cls = type("Mdl", (), model_ns)
